@@ -339,6 +339,10 @@ func runHistory(dr *Driver, im *Impl, lines []J, opts HistOpts) HistoryOutcome {
 			id := im.Dump()
 			m, kv := splitTabs(dr.Ask(ln))
 			out.Results = append(out.Results, LineResult{Impl: id, Model: m})
+			if p := im.InvProblems(); p != "" && out.Index < 0 {
+				out.Index, out.Kind, out.Detail = i, "spec", "stored state is inconsistent: "+p
+				return out
+			}
 			if kv["inv"] != "1" && out.Index < 0 {
 				out.Index, out.Kind, out.Detail = i, "inv", "model state is not the rendering of the specification state: "+kv["inv"]
 				return out
